@@ -18,6 +18,15 @@ lines.append('\n### 7.2 Known findings (genuine defects recorded, not repaired; 
 for e in known:
     lines.append(f"* **{e['property']}** `{e['id']}` (sub-check `{e.get('subcheck')}`, clause prefix `{e.get('clause')}`" + (f", predicate `{e['predicate']}`" if e.get('predicate') else '') + f") — {e['what']}")
 lines.append('\n### 7.3 Seeded defects (independent sub-agents, property text only) and which check caught them\n')
+lines.append('Each change was written by a fresh sub-agent that saw only the property text and its own git worktree of /repo '
+             '(nothing from /verif), had to keep the pinned and the upstream tests green, and had to need something specific to '
+             'manifest. `mN` with N = 1..3 is the first round (all 20 properties); N = 4..6 a second round for the twelve properties '
+             'whose first version had missed at least one change (those agents were also told which changes had been used, to force '
+             'other code sites). Every change was confirmed in a scratch copy (demo fails with it, passes without it) before it was '
+             'kept under `seeded/<id>/` (patch.diff, demo.py, meta.json, violations.txt). "yes, after the check was extended" means the '
+             'first version of the check missed it and the check was then generalised (never special-cased to the change); the column '
+             'shows the verdict of the CURRENT quick check (`tools/reseed.sh`), run against a scratch copy of the current /repo with the '
+             'patch applied.\n')
 lines.append('| seed | change | needs | caught by quick check | clauses |')
 lines.append('|---|---|---|---|---|')
 for d in sorted(glob.glob(f'{V}/seeded/*/')):
